@@ -496,19 +496,22 @@ Fixpoint program_loop (rec : matcher) (k : nat) (content : list tree) : M (list 
                 end)
   end.
 
-Definition program_match (rec : matcher) : M (option (list tree)) := fun s =>
+(* the try-block of Program.match: units until the reader is exhausted *)
+Definition program_units (rec : matcher) : M (list tree) := fun s =>
   let k := 2 * length (stream s) + 3 in
-  match add_cid rec k [] s with
-  | (Raise e, s0) => (Raise e, s0)
-  | (Val c0, s0) =>
-    match program_loop rec k c0 s0 with
-    | (Val content, s1) => (Val (Some content), s1)
-    | (Raise ENoMatch, s1) =>
-        (* except NoMatchError: BlockBase.match(Main_Program0, [], None, reader) *)
-        block_match rec (mkBspec (Some (t_main0 T)) [] None [] false false [] false false false
-                                 false false false) s1
-    | (Raise e, s1) => (Raise e, s1)
-    end
+  (c0 <- add_cid rec k [] ;; program_loop rec k c0) s.
+
+Definition main0_fallback_spec : bspec :=
+  mkBspec (Some (t_main0 T)) [] None [] false false [] false false false false false false.
+
+Definition program_match (rec : matcher) : M (option (list tree)) := fun s =>
+  match program_units rec s with
+  | (Val content, s1) => (Val (Some content), s1)
+  | (Raise ENoMatch, s1) =>
+      (* except NoMatchError: BlockBase.match(Main_Program0, [], None, reader) -- continues from
+         where the failed attempt stopped and drops the units matched so far *)
+      block_match rec main0_fallback_spec s1
+  | (Raise e, s1) => (Raise e, s1)
   end.
 
 (* Base.__new__: the loop over Base.subclasses *)
